@@ -737,7 +737,8 @@ class IntegrityChecker(object):
             for key in self.ds.config["online_filter"].keys():
                 if key.endswith("polygon points"):
                     points = self.ds.config["online_filter"][key]
-                    if points.shape[1] != 2 or points.shape[0] < 3:
+                    if (points.ndim != 2
+                            or points.shape[1] != 2 or points.shape[0] < 3):
                         cues.append(ICue(
                             msg="Metadata: Wrong shape [online_filter] "
                                 + f"{key}: '{points.shape}'",
